@@ -166,6 +166,7 @@ PROPS["C03"] = dict(
         H("c03_cursor_advby_n8_last1000", tier="thorough", mem_gb=16, timeout=1200, unwindset=efk(12), bounds="one-step induction: advby_n8_last1000"),
         H("c03_cursor_adv1_n6_last300", tier="thorough", mem_gb=16, timeout=1200, unwindset=efk(10), bounds="one-step induction: adv1_n6_last300"),
         H("c03_cursor_advby_n6_last300", tier="thorough", mem_gb=16, timeout=1200, unwindset=efk(10), bounds="one-step induction: advby_n6_last300"),
+        H("c03_cursor_skeleton300_sample_window", tier="thorough", mem_gb=16, timeout=2700, unwindset=SK300, bounds="300 concrete elements (irregular gaps), fresh cursor, seek(t) for every t in 250..=262 across the second select sample, then advance_one; canonical-state equality"),
         H("c03_cursor_exhausted_n4_last1000", tier="quick", mem_gb=16, timeout=1200, unwindset=efk(8), bounds="any op after exhaustion"),
         H("c03_cursor0_and_empty", tier="quick", mem_gb=16, timeout=600, unwindset=EFU, bounds="cursor()==cursor_from(0); empty sequence"),
         H("c03_witness_must_fail", tier="thorough", kind="witness", timeout=600, unwindset=EFU),
